@@ -118,7 +118,16 @@ def real_fn(fn, in_template):
 
 
 def jac_real(fn, point_tree):
-    """dense real Jacobian (jax.jacfwd) of a pytree function at ``point_tree``"""
+    """dense real Jacobian of a pytree function at ``point_tree`` by forward-mode autodiff:
+    ``jax.linearize`` once, then the linear map is applied to every real basis tangent
+    (same shapes as the primal evaluation, so eager mode compiles nothing new)."""
+    import jax
+    _, fwd = jax.linearize(fn, point_tree)
+    return dense_map(fwd, point_tree)
+
+
+def jac_real_jacfwd(fn, point_tree):
+    """same via jax.jacfwd on the flattened function (one vmapped trace)"""
     import jax
     import jax.numpy as jnp
     g = real_fn(fn, point_tree)
@@ -179,15 +188,20 @@ def silence_nifty_logger():
 def unflat_jax(v, template):
     """traceable inverse of the real-coordinate flattening (jax arrays in, pytree out)"""
     import jax
+    import jax.numpy as jnp
     lv, td = jax.tree_util.tree_flatten(template)
-    out, o = [], 0
-    for l in lv:
-        shp, dt = _shape_dtype(l)
+    meta = [_shape_dtype(l) for l in lv]
+    sizes = []
+    for shp, dt in meta:
         n = int(np.prod(shp, dtype=int))
+        sizes += [n, n] if np.issubdtype(dt, np.complexfloating) else [n]
+    parts = jnp.split(v, np.cumsum(sizes)[:-1].tolist()) if len(sizes) > 1 else [v]
+    out, k = [], 0
+    for shp, dt in meta:
         if np.issubdtype(dt, np.complexfloating):
-            out.append((v[o:o + n] + 1j * v[o + n:o + 2 * n]).reshape(shp))
-            o += 2 * n
+            out.append((parts[k] + 1j * parts[k + 1]).reshape(shp))
+            k += 2
         else:
-            out.append(v[o:o + n].reshape(shp))
-            o += n
+            out.append(parts[k].reshape(shp))
+            k += 1
     return jax.tree_util.tree_unflatten(td, out)
